@@ -12,6 +12,10 @@ import (
 
 var table = map[string]func(tier string) int{
 	"C04": checks.C04,
+	"C06": checks.C06,
+	"C07": checks.C07,
+	"C10": checks.C10,
+	"C12": checks.C12,
 }
 
 func main() {
